@@ -56,7 +56,19 @@ META = {
             "precedence-aware skeleton of the captured WHERE clause; attachment to the unfiltered statement's conjuncts; skeleton($not F) == NOT skeleton(F), "
             "$and/$or likewise, as truth tables) and the Lean driver area filtersem (model fragment == real fragment; Lean reading == Python reading of the "
             "real fragment and of the real WHERE clause; reading == meaning).  "
-            "Still NOT proved / not done: reads_equal_replay (what the Go query builders compute is not modelled), and nothing executes PostgreSQL: "
+            "POINT-IN-TIME READS OF moves: pit_read_pairing = pit_read_by_insertion_date (P1: for every history with distinct metadata keys and non-decreasing log "
+            "dates, every ledger, account, asset and instant t, among the projected rows with insertion_date <= t the one with the greatest seq carries in "
+            "post_commit_volumes the replayed inputs and outputs of the entries inserted by t; Lemmas/StoreSqlPit.lean: the rows' insertion_date is the replayed move's "
+            "(InsRel, kept by every entry), replayed moves are in insertion-date order, clause_pit) + pit_read_by_effective_date (P2: rows effective_date <= t, last by "
+            "(effective_date, seq), post_commit_effective_volumes = replayed volumes by effective date; every history) + pit_mixed_read_witness (kernel-evaluated on "
+            "wPairing, the history of seeded change c04-r4-1: cut on effective_date, latest by seq, post_commit_volumes is NEITHER replayed figure) + "
+            "pit_read_by_insertion_date_needs_ordered_dates; tied to the real SQL twice: checks/c04pit.py reads (date column, keys that pick the row, volumes column) off "
+            "every latest-row read of moves in every captured statement and in the schema functions the point in time is passed to (`_before`, positional or named) and "
+            "accepts P1 and P2 only (pit-pairing); checks/c04eval.py EVALUATES the captured GetAggregatedBalances statements (conditions, DISTINCT ON, ORDER BY, summed "
+            "column read from the text) on the moves rows the regenerated trigger chain projects for generated histories, at instants between insertion and timestamp "
+            "order, with and without an address filter, against an independent fold of the entries inserted by the instant (read-differs-from-replay; model-level rows, "
+            "real statement text).  "
+            "Still NOT proved / not done: reads_equal_replay in general (what the Go query builders compute is not modelled beyond the above), and nothing executes PostgreSQL: "
             "projection_refines_replay is about the Lean translation of the PL/pgSQL under the semantics of Model/Store/Sql.lean; revision DATES of the "
             "history tables and the `date` passed to upsert_account for script metadata (the transaction timestamp, not the log date) are not compared.",
     "note": "Stage 2 rests on Model/Store/Sql.lean, my reading of PostgreSQL (three-valued logic, select-into assigning NULLs when no row is "
@@ -66,6 +78,11 @@ META = {
             "kernel (axioms propext/Classical.choice/Quot.sound at most); Store.replay as the reading of 'the replay of the log'; the Go harness and "
             "its generator; bun's rendering as captured; the little SQL block parser of checks/c04sql.py (fails loudly on shapes it does not know) "
             "and its rule that a row joined by its foreign key <t>_seq to the primary key seq of a ledger-restricted row is itself restricted; "
+            "PIT PAIRING: checks/c04pit.py is syntactic (a block over the base table moves with `order by … limit 1` or `distinct on`; the conjunct comparing a date column "
+            "with the PIT literal / `_before`; the volumes column of the select list, or the one the rest of the statement reads when the block returns *) and refuses shapes it "
+            "does not know; not judged, reported in the evidence: latest-row reads under a PIT that are not cut at it (the balance filter of the accounts listing) and the "
+            "mixed readings of get_account_balance / aggregate_ledger_volumes, which no captured statement passes a point in time (design 6 #22); checks/c04eval.py's "
+            "interpreter knows the one statement shape GetAggregatedBalances emits.  "
             "FILTERS: the boolean reading of NOT / AND / OR precedence (Lean boolParse and, independently, checks/c04filter.py) is my model of "
             "PostgreSQL's grammar; atomic conditions are opaque (what `sources @> '[\"bank\"]'` selects is not modelled); the theorem speaks about the "
             "scanner's tokens piece by piece, that they are the tokens of the text scanned as a whole is checked by the driver on every captured case, not proved.",
@@ -995,6 +1012,8 @@ def run(ctx):
         "harness/storeview.go (generator, one real storage.InMemoryStore per ledger) and harness/readsql.go (real ledgerstore.Store over bun + pgdialect + recording driver)",
         "checks/c04sql.py: block parser for the captured SELECT/WITH statements; rule: ledger = L, or foreign-key/primary-key join (accounts_seq / transactions_seq / seq) to a restricted row",
         "checks/c20.py tokenize(): PostgreSQL tokenizer shared with C20",
+        "checks/c04pit.py (which block is a latest-row read of moves, its date conjunct, picking keys and volumes column; `_before` followed through function calls) and "
+        "checks/c04eval.py (interpreter of the GetAggregatedBalances statement shape over rows projected by the Lean translation of the triggers)",
         "bun 1.1.16 rendering as captured; SQL is never executed (no PostgreSQL in the sandbox)",
         "FILTERS: lean/Model/Store/FilterSem.lean boolParse and checks/c04filter.py skeleton(): two independent readings of SQL operator precedence "
         "(parentheses, NOT > AND > OR, everything else an opaque atom; `is not null` / `not in` / BETWEEN / CASE at depth 0 are refused) - my model of "
@@ -1111,6 +1130,9 @@ def run(ctx):
                                    "run and on the enumeration to depth 3/4 (all satisfy the hypothesis), and the older kernel evaluations (<= 2 entries, one rich example)",
         "2g read functions / read queries": "get_account_balance(_before) transcribed by hand: latent defect witnessed; the Go query builders are NOT modelled "
                                             "(no render/eval model, reads_equal_replay not stated)",
+        "2h point-in-time reads of moves": "proved: the two sound pairings of date column / row order / volumes column (pit_read_pairing) + witness against mixing them; "
+                                           "tied: pit-pairing obligation on every captured statement and the schema functions it calls (checks/c04pit.py); captured "
+                                           "GetAggregatedBalances statements evaluated on projected rows against the replay (checks/c04eval.py)",
     }
     ctx.cov["search"] = ("the generated histories of this run on the real in-memory store (every probe compared with an independent fold); the SQL text of every read "
                          "method on the parameter lattice; the same histories and every history of <= %d entries over the alphabet of lean/Model/Store/Search.lean run "
